@@ -94,8 +94,14 @@ def checkoutsFromState(state):
 
     The list is sorted so that SCM operation can safely be done in list order.
     """
+    def key(i):
+        # Sort by path components. A plain string comparison would put
+        # directories like "+foo" before "." and break the top-down order.
+        d = os.path.normcase(os.path.normpath(i[0]))
+        return [] if d == os.curdir else d.split(os.sep)
+
     return sorted(( (d, v) for d, v in state.items() if d not in CHECKOUT_NON_DIR_KEYS ),
-                  key=lambda i: os.path.normcase(os.path.normpath(i[0])) )
+                  key=key)
 
 def checkoutBuildOnlyState(checkoutStep, inputHashes):
     """Obtain state for build-only checkout updates.
